@@ -122,6 +122,30 @@ def main(tier, seed, replay=None):
                     if wj == 0.0:
                         col[j] = hx(1234.5, sc)
         pairs.append((cw, tw, third, kind))
+    # a user-supplied ABSOLUTE threshold with weights far from 1: the threshold refers to the singular values of W Phi in both problems
+    # (the twin carries the same threshold and no weights), so the pair must agree bit for bit whatever max|w| is
+    for j in range(8 if tier == "quick" else 100):
+        c = gen_problem(rng, quant=(8 if j % 4 else None), weights="none", builder_made=False,
+                        family=["exp2c", "gaussc", "rat2", "cosmix"][j % 4], ctor=["new", "mrhs", "new_parallel", "mrhs_parallel"][j % 4])
+        sc = c["scalar"]
+        cw = copy.deepcopy(c)
+        scale_up_for_eps(rng, cw)
+        w = [unhx(h) for h in [o for o in cw["build"] if o[0] == "weights"][-1][1]]
+        if j % 2:
+            w = [v / 65536.0 for v in w]        # max|w| << 1 as well (the threshold then sits far ABOVE eps * max|w|)
+            for o in cw["build"]:
+                if o[0] == "weights":
+                    o[1] = [hx(v, sc) for v in w]
+                if o[0] == "eps":
+                    o[1] = hx(unhx(o[1]) / 65536.0, sc)
+            cw["meta"]["eps"] = cw["meta"]["eps"] / 65536.0
+        ops = states.observe_at(rng, c, nsets=1)
+        cw["ops"] = ops
+        tw = scaled_twin(cw, w)
+        tw["ops"] = ops
+        tw["meta"]["weights"] = "none"
+        kinds["scaled+eps"] = kinds.get("scaled+eps", 0) + 1
+        pairs.append((cw, tw, None, "scaled+eps"))
     cases = []
     for cw, tw, third, kind in pairs:
         cases += [cw, tw] + ([third] if third is not None else [])
